@@ -1,6 +1,7 @@
 package main
 
 import (
+	"go/token"
 	"fmt"
 	"go/types"
 	"strings"
@@ -409,6 +410,125 @@ func ruleR20_6(r *Run) {
 	if n == 0 {
 		r.undecided("nil-nil-sends", "no send of a possibly-nil result found")
 	}
+	// direct uses in the request goroutine: a dereference of the possibly-nil result, or handing it to a
+	// repository function that dereferences the parameter without testing it
+	nd := 0
+	for _, f := range w.RepoFuncs {
+		if !strings.HasPrefix(relPkg(pkgPathOf(f)), "datatype/") || len(f.Blocks) == 0 || strings.HasSuffix(w.fposFile(f), "_test.go") {
+			continue
+		}
+		k := 0
+		for _, c := range calls(f) {
+			callee := c.Common().StaticCallee()
+			if callee == nil || !inRepo(callee) || !returnsNilNil(callee) {
+				continue
+			}
+			// the found-flag idiom (ptr, …, found bool, err): callers test the flag, not the pointer
+			hasFlag := false
+			res := callee.Signature.Results()
+			for i := 0; i < res.Len(); i++ {
+				if bt, ok := res.At(i).Type().Underlying().(*types.Basic); ok && bt.Kind() == types.Bool {
+					hasFlag = true
+				}
+			}
+			if hasFlag {
+				continue
+			}
+			cv, ok := c.(ssa.Value)
+			if !ok {
+				continue
+			}
+			var ptr, errv ssa.Value
+			for _, ref := range *cv.Referrers() {
+				if ex, ok := ref.(*ssa.Extract); ok && ex.Index == 0 {
+					ptr = ex
+				}
+				if ex, ok := ref.(*ssa.Extract); ok && ex.Index == res.Len()-1 && isErrorType(ex.Type()) {
+					errv = ex
+				}
+			}
+			if ptr == nil || ptr.Referrers() == nil {
+				continue
+			}
+			// a callee that never returns a non-nil error: its caller's error branch is dead code
+			neverErrs := true
+			for _, b := range callee.Blocks {
+				if ret, ok := b.Instrs[len(b.Instrs)-1].(*ssa.Return); ok && len(ret.Results) > 0 {
+					if !isNilConst(ret.Results[len(ret.Results)-1]) {
+						neverErrs = false
+					}
+				}
+			}
+			for _, ref := range *ptr.Referrers() {
+				var what string
+				switch x := ref.(type) {
+				case *ssa.FieldAddr:
+					if x.X == ptr {
+						what = "field access"
+					}
+				case *ssa.UnOp:
+					if x.Op == token.MUL && x.X == ptr {
+						what = "dereference"
+					}
+				case ssa.CallInstruction:
+					if _, isGo := x.(*ssa.Go); isGo {
+						continue
+					}
+					cal := x.Common().StaticCallee()
+					if cal == nil || !inRepo(cal) || len(cal.Blocks) == 0 {
+						continue
+					}
+					for ai, a := range x.Common().Args {
+						if a == ptr && ai < len(cal.Params) && derefsParamUnguarded(cal.Params[ai], cal) {
+							what = "call of " + cal.Name() + ", which dereferences it"
+						}
+					}
+				}
+				if what == "" {
+					continue
+				}
+				in := ref.(ssa.Instruction)
+				if neverErrs && errv != nil && testedNonNil(errv, in.Block()) {
+					continue // inside `if err != nil` of a call that cannot fail
+				}
+				nd++
+				k++
+				guarded := testedNonNil(ptr, in.Block()) || nilTestedViaSpill(ptr, in)
+				r.check(guarded, fmt.Sprintf("%s:%s-result#%d-nil-checked-before-use", fname(f), callee.Name(), k),
+					"the possibly-nil result is tested before it is dereferenced",
+					fmt.Sprintf("%s can return (nil, nil) (e.g. a block that was never stored); its result reaches a %s without a nil test: a read of an empty region panics instead of returning zeros or an error", callee.Name(), what), w.pos(in.Pos()))
+			}
+		}
+	}
+	r.note("R20.6: %d direct uses of possibly-nil results examined", nd)
+}
+
+// derefsParamUnguarded: the function dereferences its pointer parameter (field access, load, range over a
+// field) in a block that is not behind a nil test of that parameter.
+func derefsParamUnguarded(p *ssa.Parameter, f *ssa.Function) bool {
+	if p.Referrers() == nil {
+		return false
+	}
+	for _, ref := range *p.Referrers() {
+		var in ssa.Instruction
+		switch x := ref.(type) {
+		case *ssa.FieldAddr:
+			if x.X == ssa.Value(p) {
+				in = x
+			}
+		case *ssa.UnOp:
+			if x.Op == token.MUL && x.X == ssa.Value(p) {
+				in = x
+			}
+		}
+		if in == nil {
+			continue
+		}
+		if !testedNonNil(p, in.Block()) {
+			return true
+		}
+	}
+	return false
 }
 
 // sendsOf: channel sends whose value is ptr or a struct literal holding ptr.
